@@ -24,10 +24,20 @@ bad = []
 n_or = 0
 
 
-def hmodel(nmol, nmode, rs, scheme=2):
+def hmodel(nmol, nmode, rs, scheme=2, degenerate=False):
     oms = [[float(rs.randint(1, 17)) / 8.0 for _ in range(nmode)] for _ in range(nmol)]
     nb = [[int(rs.choice([2, 3])) for _ in range(nmode)] for _ in range(nmol)]
     dis = [[float(rs.randint(0, 9)) / 8.0 for _ in range(nmode)] for _ in range(nmol)]
+    if degenerate:
+        # modes with the same frequency and number of levels but different displacements (within and across molecules):
+        # in EX space their local propagators differ
+        w0, n0 = oms[0][0], 3
+        k = 0
+        for i in range(nmol):
+            for j in range(nmode):
+                oms[i][j], nb[i][j] = w0, n0
+                dis[i][j] = [0.875, -0.5, 0.25, 1.125][k % 4]
+                k += 1
     mols = []
     for i in range(nmol):
         phs = [Phonon.simple_phonon(Quantity(oms[i][k]), Quantity(dis[i][k]), nb[i][k]) for k in range(nmode)]
@@ -61,7 +71,11 @@ def local_dense(kinds, x, shift, ex):
 
 for it in range(int(P.get("n", 4))):
     nmol, nmode = int(rs.choice([1, 2])), int(rs.choice([1, 2]))
-    model, oms, nb = hmodel(nmol, nmode, rs)
+    if it == 0:
+        nmol, nmode = 1, 2
+    elif it == 1:
+        nmol, nmode = 2, 1
+    model, oms, nb = hmodel(nmol, nmode, rs, degenerate=(it < 2))
     kinds = site_kinds(model)
     # ------------------------------------------------------------------ A. structure in the model's terms
     x = float(rs.choice([-0.5, 0.25, -1.0]))
